@@ -303,16 +303,18 @@ def eval_group(env, group, tier):
         elif kind == 'config':
             conf0 = open(env.config_path()).read()
             import re
-            try:
-                env.set_config(re.sub(r'(?ms)^is_zip_archive = \[.*?\]', 'is_zip_archive = [".zip", ".apk"]', conf0))
-                o = env.run(['path from . archives into list'], cwd=root)
-            finally:
-                env.set_config(conf0)
-            exp = [r[1] for r in ordinary_rows(root)]
-            for a, ms in list(ARCHIVES.items()) + [('./extra.apk', MEMBERS[:3])]:
-                if a.endswith('.zip') or a.endswith('.apk'):
-                    exp += [member_row('', a, m)[1] for m in ms]
-            emit(['config'], o.rc == 0 and sorted(o.rows()) == sorted(exp), 'configured-zip-extensions', dict(o.brief(), expected_n=len(exp)), layer='config')
+            # the configured spelling of an extension does not matter, as the spelling of the file name does not
+            for spelt in ('[".zip", ".apk"]', '[".ZIP", ".APK"]', '[".Zip", ".Apk"]', '[".zip", ".aPK"]'):
+                try:
+                    env.set_config(re.sub(r'(?ms)^is_zip_archive = \[.*?\]', 'is_zip_archive = ' + spelt, conf0))
+                    o = env.run(['path from . archives into list'], cwd=root)
+                finally:
+                    env.set_config(conf0)
+                exp = [r[1] for r in ordinary_rows(root)]
+                for a, ms in list(ARCHIVES.items()) + [('./extra.apk', MEMBERS[:3])]:
+                    if a.endswith('.zip') or a.endswith('.apk'):
+                        exp += [member_row('', a, m)[1] for m in ms]
+                emit(['config', spelt], o.rc == 0 and sorted(o.rows()) == sorted(exp), 'configured-zip-extensions', dict(o.brief(), expected_n=len(exp), configured=spelt), layer='config')
         elif kind == 'clock':
             members = [member_row(os.path.basename(a), a, m) for a, ms in ARCHIVES.items() for m in ms]
             exp = sorted((m[1], m[5]) for m in members)
